@@ -3,8 +3,7 @@ CONSTANTS
   MaxEntry = 4
   BufSize = 12
   DepthLimit = 100
-  EmptyFileSeek = {"ioerr", "tooEarly"}
+  EmptyGuard = TRUE
   MaxLines = 6
   MinLen = 1
   MaxLen = 3
-  SkipEmpty = FALSE
